@@ -168,6 +168,10 @@ func ParseRtpHeader(b []byte) (h RtpHeader, err error) {
 
 	if h.Padding == 1 {
 		h.paddingLength = int(b[len(b)-1])
+		// the padding count includes itself and must leave at least one byte of payload
+		if offset+h.paddingLength >= len(b) {
+			return h, base.ErrRtpRtcpShortBuffer
+		}
 	}
 	return
 }
@@ -219,8 +223,10 @@ func IsAvcBoundary(pkt RtpPacket) bool {
 		avc.NaluTypeIdrSlice: {},
 	}
 
-	// TODO(chef): [fix] 检查数据长度有效性 202211
 	b := pkt.Body()
+	if len(b) < 1 {
+		return false
+	}
 	outerNaluType := avc.ParseNaluType(b[0])
 
 	if _, ok := boundaryNaluTypes[outerNaluType]; ok {
@@ -228,6 +234,9 @@ func IsAvcBoundary(pkt RtpPacket) bool {
 	}
 
 	if outerNaluType == NaluTypeAvcStapa {
+		if len(b) < 4 {
+			return false
+		}
 		t := avc.ParseNaluType(b[3])
 		if _, ok := boundaryNaluTypes[t]; ok {
 			return true
@@ -235,6 +244,9 @@ func IsAvcBoundary(pkt RtpPacket) bool {
 	}
 
 	if outerNaluType == NaluTypeAvcFua {
+		if len(b) < 2 {
+			return false
+		}
 		t := avc.ParseNaluType(b[1])
 		if _, ok := boundaryNaluTypes[t]; ok {
 			if b[1]&0x80 != 0 {
@@ -261,8 +273,10 @@ func IsHevcBoundary(pkt RtpPacket) bool {
 		hevc.NaluTypeSliceRsvIrapVcl23: {},
 	}
 
-	// TODO(chef): [fix] 检查数据长度有效性 202211
 	b := pkt.Body()
+	if len(b) < 1 {
+		return false
+	}
 	outerNaluType := hevc.ParseNaluType(b[0])
 
 	if _, ok := boundaryNaluTypes[outerNaluType]; ok {
@@ -270,6 +284,9 @@ func IsHevcBoundary(pkt RtpPacket) bool {
 	}
 
 	if outerNaluType == NaluTypeHevcFua {
+		if len(b) < 3 {
+			return false
+		}
 		t := b[2] & 0x3F // 注意，这里是后6位，不是中间6位
 		if _, ok := boundaryNaluTypes[t]; ok {
 			if b[2]&0x80 != 0 {
